@@ -49,6 +49,13 @@ Qed.
 Lemma ty_eqb_refl : forall a, ty_eqb a a = true.
 Proof. intro a. apply ty_eqb_eq. reflexivity. Qed.
 
+Lemma ty_eqb_sym : forall a b, ty_eqb a b = ty_eqb b a.
+Proof.
+  intros a b. destruct (ty_eqb a b) eqn:E.
+  - apply ty_eqb_eq in E. subst b. symmetry. apply ty_eqb_refl.
+  - destruct (ty_eqb b a) eqn:E2; [|reflexivity]. apply ty_eqb_eq in E2. subst b. rewrite ty_eqb_refl in E. discriminate.
+Qed.
+
 (* name erasure: alpha-equivalence is equality of erased terms *)
 Fixpoint erase (t : tm) : tm :=
   match t with
